@@ -353,9 +353,9 @@ def run(chk):
         p["Xs"] = scipy_reference(p)
 
     # ---------------- A. converged runs: predicates + exact certificates (CConv)
-    def conv_case(p, V, which, eps, lr, tstep):
+    def conv_case(p, V, which, eps, lr, tstep, tkkt=1e-6, tobj=1e-6):
         lit = lambda cid: (f"(CConv {cid}%nat {which}%nat {mat_lit(p['B'])} {mat_lit(p['G'])} {p['n']}%nat {C.q(p['l1'])} {C.q(p['l2'])} "
-                           f"{C.q(eps)} {C.q(lr)} {mat_lit(V)} {mat_lit(p['X'])} {C.q(tstep)} {C.q(1e-6)} {C.q(1e-6 if eps == 0 else 1.0)})")
+                           f"{C.q(eps)} {C.q(lr)} {mat_lit(V)} {mat_lit(p['X'])} {C.q(tstep)} {C.q(tkkt)} {C.q(tobj if eps == 0 else 1.0)})")
         return lit
 
     for p in fista_corpus:
@@ -414,6 +414,8 @@ def run(chk):
                     msg = check_point(p, V, 0.0, "hals_nnls(default n_iter_max, tol; " + sname + ")", tk=1e-3, to=1e-4)
                     if msg:
                         chk.finding(EP_HALS, inp_d, msg, "C13_kkt_optimal", observed=np.asarray(V))
+                    elif pi % 3 == 0:    # the same statement under the exact certificate evaluated in Coq (looser tolerances)
+                        add_case(conv_case(p, V, 0, 0.0, 1.0, 1e-2, 1e-3, 1e-4), ("conv-hals-default", pi, sname, r, n))
         # fista (penalised as well) and active set (plain problems, column by column)
         if pi % 2 == 0 or chk.tier == "thorough":
             eps = 0.0 if pi % 3 else 1e-8
@@ -444,6 +446,9 @@ def run(chk):
                     msg = check_point(p, V, 0.0, "fista(default n_iter_max, tol, lr)", tk=1e-2, to=1e-4)
                     if msg:
                         chk.finding(EP_FISTA, inp_d, msg, "C13_kkt_optimal", observed=np.asarray(V))
+                    elif pi % 3 == 0:
+                        lrd = 1.0 / (float(np.linalg.norm(p["G"], 2)) + 2 * p["l2"])
+                        add_case(conv_case(p, V, 1, 0.0, lrd, 1e-2, 1e-2, 1e-4), ("conv-fista-default", pi, "x", r, n))
             except Skip:
                 pass
         if plain:
@@ -673,7 +678,7 @@ def run(chk):
                  ("admm", r, m))
 
     # ---------------- evaluate the correspondence inside Coq
-    failing, n_eval, broken = C.run_case_shards("C13", HEADER, "case", cases, shard=20 if chk.tier == "quick" else 30, timeout=3000)
+    failing, n_eval, broken = C.run_case_shards("C13", HEADER, "case", cases, shard=24 if chk.tier == "quick" else 30, timeout=3000)
     chk.checker_cmds.append("coqc (vm_compute) on generated build/cases/C13/*.v: Corr.C13.failing")
     chk.cov["traces_validated_against_impl"] = n_eval
     chk.cov["exhaustive"] = False
